@@ -25,7 +25,7 @@ ASSUMPTIONS = ["NumPy longdouble evaluation of the namesake / documented closed 
                "from poles and kinks (conventions at kinks are checked separately and exactly)"]
 TIERS = {"quick": {"per_spec": 60, "cases": 0}, "thorough": {"per_spec": 2500, "cases": 0}}
 FLOORS = {"quick": {"fd_ok": 6000, "gradinv_checks": 3000, "kink_checks": 12},
-          "thorough": {"fd_ok": 30000, "gradinv_checks": 15000, "kink_checks": 60}}
+          "thorough": {"fd_ok": 30000, "gradinv_checks": 15000, "kink_checks": 12}}
 SKIP_BUDGET = {"fd": ("fd_skipped", "fd_dirs", 0.1)}
 
 SHAPE_KINDS = {"reshape", "squeeze", "ravel", "expand_dims", "broadcast_to", "atleast", "transpose", "T", "moveaxis", "swapaxes", "flatten", "roll"}
